@@ -362,7 +362,7 @@ def fan_out_dispatch(chk):
     from_preset, of the preset name (str / list / dict) in the three convenience constructors, three atoms: atom a's atomic constructor receives the
     radial grid and preset that belong to atom a.  (The plain variant - one grid, one name - is fan_out above.)"""
     eng = chk.eng
-    ZC = [8, 1, 6]                    # concrete atomic numbers, listed in an order different from their numerical order
+    ZC = [8, 1, 8]                    # concrete atomic numbers: not in numerical order, first and last atom of the same element (O-H-O pattern)
     rec = {"atom": [], "mol": [], "default": []}
 
     def atom_contract(kind):
@@ -408,9 +408,10 @@ def fan_out_dispatch(chk):
             atnums = M.array_from_seq(eng_, list(ZC))
             atcoords = I.Arr((3, 3), lambda a, c: z3.Function("R", IS, IS, RS)(T.zi(a), T.zi(c)), "real")
             rgs = [mk_rg(eng_, f"for-atom-{a}") for a in range(3)]
-            rg = {"one": rgs[0], "list": list(rgs), "dict": {ZC[a]: rgs[a] for a in range(3)}, "none": None}[rkind]
+            first_of = {z_: ZC.index(z_) for z_ in ZC}          # dict variants are keyed by element: atoms of the same element share the entry
+            rg = {"one": rgs[0], "list": list(rgs), "dict": {z_: rgs[k_] for z_, k_ in first_of.items()}, "none": None}[rkind]
             names = ["coarse", "fine", "medium"]
-            preset = {"str": "fine", "list": list(names), "dict": {ZC[a]: names[a] for a in range(3)}}[pkind]
+            preset = {"str": "fine", "list": list(names), "dict": {z_: names[k_] for z_, k_ in first_of.items()}}[pkind]
             aim = I.Opaque("aim", call=True)
             if which == "from_size":
                 res = eng_.call(fr.getattr(cls, "from_size"), [atnums, atcoords, 110], {"rgrid": rg, "aim_weights": aim, "store": True})
@@ -447,10 +448,10 @@ def fan_out_dispatch(chk):
                             z = got.fields["_default_for"]
                             goals.append(T.zi(z) == ZC[a] if T.is_sym(z) else z3.BoolVal(int(z) == ZC[a]))
                     else:
-                        okr = got is (rgs[0] if rkind == "one" else rgs[a])
+                        okr = got is (rgs[0] if rkind == "one" else (rgs[a] if rkind == "list" else rgs[ZC.index(ZC[a])]))
                     ok = ok and bool(okr)
                     if which == "from_preset":
-                        ok = ok and kw.get("preset") == ("fine" if pkind == "str" else names[a])
+                        ok = ok and kw.get("preset") == ("fine" if pkind == "str" else (names[a] if pkind == "list" else names[ZC.index(ZC[a])]))
                         zz = M.unwrap(kw.get("atnum"))
                         goals.append(T.zi(zz) == ZC[a] if T.is_sym(zz) else z3.BoolVal(zz is not None and int(zz) == ZC[a]))
                 lst = mols[0][0][1] if len(mols[0][0]) > 1 else None
